@@ -58,9 +58,18 @@ def leaves_module():
 ORDER = ["C"]     # memory layout of the arrays handed to the constructors ("F": column-major, as returned by LAPACK wrappers)
 
 
+GIVEN = []        # (array handed to a constructor, bytes at that time): "arrays supplied by the caller"
+
+
 def arr(m):
     a = np.array([[float(frac(x)) for x in row] for row in m], dtype=float)
-    return np.asfortranarray(a) if ORDER[0] == "F" else a
+    a = np.asfortranarray(a) if ORDER[0] == "F" else a
+    GIVEN.append((a, a.tobytes()))
+    return a
+
+
+def given_arrays_changed():
+    return [i for i, (a, b) in enumerate(GIVEN) if a.tobytes() != b]
 
 
 def build_leaf(name):
@@ -427,15 +436,30 @@ def check_access_orders(progs):
         before = snapshot(obj)
         cls = BY_NAME[leaf]["cls"]
         rp = {"engine": "matrices-access", "leaf": leaf, "order": order}
-        for i, a in enumerate(order):
+        first = {}
+        for i, a in enumerate(order + [x for x in dict.fromkeys(order)]):
+            again = i >= len(order)
             try:
                 got = read_attr(obj, a, probe)
             except Exception as e:  # noqa: BLE001
+                if again:
+                    continue
                 if ref_cache[leaf][a] is not None:
                     sig = f"C19:{cls}:{a}:raises-after:{'>'.join(order[:i]) or 'nothing'}"
                     if sig not in seen:
                         seen.add(sig)
                         viol.append(("C19", sig, f"{leaf}: reading {a} after {order[:i]} raised {type(e).__name__}: {e} (fine on a fresh object)", rp))
+                continue
+            if a not in first:
+                first[a] = got
+            elif not (got.shape == first[a].shape and got.tobytes() == first[a].tobytes()):
+                # repeated evaluation of a property on the same object: identical, whatever was computed in between
+                sig = f"C19:{cls}:{a}:repeated-read-differs"
+                if sig not in seen:
+                    seen.add(sig)
+                    viol.append(("C19", sig, f"{leaf}: reading {a} again after {order} gives a result that is not identical to the first "
+                                 f"read (max difference {float(np.max(np.abs(got - first[a]))) if got.shape == first[a].shape else 'shape'})", rp))
+            if again:
                 continue
             want = ref_cache[leaf][a]
             if want is not None and not (got.shape == want.shape and np.allclose(got, want, rtol=1e-12, atol=1e-13)):
@@ -495,7 +519,10 @@ def check_value_semantics():
             if pa.flags.writeable and pa.size:
                 add(f"C19:{cls}:parameter-writable:{k}", f"{name}: array {k} held since construction can be modified in place", rp)
         # operations leave operands and caller arrays untouched
+        GIVEN.clear()
         obj = build_leaf(name)
+        if given_arrays_changed():
+            add(f"C19:{cls}:constructor:caller-array-modified", f"{name}: the constructor modified an array supplied by the caller", rp)
         before = snapshot(obj)
         m = obj.shape[1]
         v = np.arange(1.0, m + 1.0)
@@ -515,7 +542,7 @@ def check_value_semantics():
             except Exception:  # noqa: BLE001
                 continue
             opsdone.append(opname)
-            if (v.tobytes(), Bm.tobytes(), w.tobytes()) != (vb, Bb, wb):
+            if (v.tobytes(), Bm.tobytes(), w.tobytes()) != (vb, Bb, wb) or given_arrays_changed():
                 add(f"C19:{cls}:{opname}:caller-array-modified", f"{name}: {opname} modified an array supplied by the caller", rp)
                 break
             changed = changed_keys(before, snapshot(obj))
